@@ -312,3 +312,9 @@ func (t *Torrent) VerifInjectDHTPeers(addrs []*net.TCPAddr) bool {
 		return false
 	}
 }
+
+// VerifLoadBlocklist loads CIDR rules into the session's blocklist.
+func (s *Session) VerifLoadBlocklist(text string) error {
+	_, err := s.blocklist.Reload(strings.NewReader(text))
+	return err
+}
